@@ -696,6 +696,18 @@ void exec_op(World& w, const Op& op) {
       size_t i = size_t(op.a[0]) & 3; String& s = w.str(i); std::string& m = w.str_model[i];
       std::string t = gen_text(uint64_t(op.a[2]), size_t(op.a[1]));
       Error e;
+      if (op.kind == kStrAppend && (op.a[3] & 6) == 6 && !m.empty() && m.size() < 20000) {
+        // the string (or a part of it) appended to itself - std::string::append(s) / append(s, pos, n) are well defined
+        size_t pos = size_t(op.a[2]) % m.size(), n = (op.a[3] & 8) ? m.size() - pos : 1 + size_t(op.a[1]) % (m.size() - pos);
+        if (op.a[3] & 8) pos = 0, n = m.size();
+        t = m.substr(pos, n);
+        e = (pos == 0 && n == m.size() && (op.a[3] & 1)) ? s.append(s) : s.append(s.data() + pos, n);
+        if (e == Error::kOk) m += t;
+        sim::count("c18.probe.string_appended_to_itself");
+        sim::logf("str_append %zu to itself pos=%zu n=%zu err=%u", i, pos, n, unsigned(e));
+        check_str(w, i, "after appending the string to itself");
+        break;
+      }
       if (op.kind == kStrAssign) e = (op.a[3] & 1) ? s.assign(t.c_str()) : s.assign(t.data(), t.size());
       else if (op.kind == kStrAssignSpan) e = s.assign(Span<const char>(t.data(), t.size()));
       else e = (op.a[3] & 1) ? s.append(t.c_str()) : s.append(t.data(), t.size());
